@@ -88,3 +88,56 @@ Proof.
   - destruct (N.compare m n) eqn:E; try discriminate. apply N.compare_eq in E. intros H. apply N.compare_eq in H. congruence.
   - intros [= -> ->]. rewrite !N.compare_refl. reflexivity.
 Qed.
+
+(* ---- the whole truth about == on cooked DIEs of one file: the same offset, and one chain of imports
+   (innermost first) is an initial part of the other ---- *)
+Fixpoint imp_of (chain : list N) : option die :=
+  match chain with
+  | [] => None
+  | c :: rest => Some (Die 0 c false (imp_of rest))
+  end.
+Definition route (off : N) (chain : list N) : die := Die 0 off false (imp_of chain).
+
+Fixpoint prefix (a b : list N) : Prop :=
+  match a, b with
+  | [], _ => True
+  | x :: a', y :: b' => x = y /\ prefix a' b'
+  | _ :: _, [] => False
+  end.
+
+Lemma route_eq_iff o1 c1 : forall o2 c2,
+  die_cmp (route o1 c1) (route o2 c2) = Eq <-> o1 = o2 /\ (prefix c1 c2 \/ prefix c2 c1).
+Proof.
+  revert o1. induction c1 as [|x c1 IH]; intros o1 o2 c2; unfold route; cbn [imp_of die_cmp N.compare orb].
+  - destruct (N.compare o1 o2) eqn:E.
+    + apply N.compare_eq in E. destruct (imp_of c2); cbn [prefix]; tauto.
+    + split; [discriminate|]. intros [-> _]. rewrite N.compare_refl in E. discriminate.
+    + split; [discriminate|]. intros [-> _]. rewrite N.compare_refl in E. discriminate.
+  - destruct (N.compare o1 o2) eqn:E.
+    + apply N.compare_eq in E. destruct c2 as [|y c2]; cbn [imp_of prefix].
+      * tauto.
+      * specialize (IH x y c2). unfold route in IH. rewrite IH. split.
+        -- intros [-> [P|P]]; split; auto.
+        -- intros [_ [[-> P]|[-> P]]]; split; auto.
+    + split; [discriminate|]. intros [-> _]. rewrite N.compare_refl in E. discriminate.
+    + split; [discriminate|]. intros [-> _]. rewrite N.compare_refl in E. discriminate.
+Qed.
+
+(* consequences: a DIE reached without imports equals every route to it; routes of equal length are equal only
+   when they are the same route *)
+Corollary chainless_equals_every_route o c : die_cmp (route o []) (route o c) = Eq.
+Proof. apply route_eq_iff. split; [reflexivity|]. left. exact I. Qed.
+
+Lemma prefix_same_length a : forall b, length a = length b -> prefix a b -> a = b.
+Proof.
+  induction a as [|x a IH]; intros [|y b] L P; try discriminate L; [reflexivity|].
+  cbn [prefix] in P. destruct P as [-> P]. injection L as L. rewrite (IH b L P). reflexivity.
+Qed.
+
+Corollary equal_length_routes o1 c1 o2 c2 : length c1 = length c2 ->
+  die_cmp (route o1 c1) (route o2 c2) = Eq -> o1 = o2 /\ c1 = c2.
+Proof.
+  intros L H. apply route_eq_iff in H. destruct H as [-> [P|P]]; split; auto.
+  - apply prefix_same_length; assumption.
+  - symmetry. apply prefix_same_length; [symmetry; exact L|exact P].
+Qed.
